@@ -212,7 +212,8 @@ def minimise(prop, spec, clause, budget=300, key=None, wall_s=120.0):
 
 
 def write_replay(pid, spec, clause, key, text, mini, prop):
-    os.makedirs(os.path.join(VERIF, "replays"), exist_ok=True)
+    rdir = os.environ.get("VERIF_REPLAY_DIR") or os.path.join(VERIF, "replays")  # sensitivity tools point this at their scratch directory
+    os.makedirs(rdir, exist_ok=True)
     tape = mini["tape"] if mini else spec.get("tape")
     out = {
         "property": pid,
@@ -235,7 +236,7 @@ def write_replay(pid, spec, clause, key, text, mini, prop):
     except Exception:
         out["trace"] = ["<rendering failed: %s>" % traceback.format_exc(limit=1)]
     h = hashlib.sha256(json.dumps([spec["scenario"], spec.get("params"), spec.get("seed"), tape], sort_keys=True, default=str).encode()).hexdigest()[:10]
-    path = os.path.join(VERIF, "replays", f"{pid}-{clause}-{h}.json")
+    path = os.path.join(rdir, f"{pid}-{clause}-{h}.json")
     with open(path, "w") as f:
         json.dump(out, f, indent=1, default=str)
     return path
